@@ -180,9 +180,6 @@ Definition chromatic_dispersion (pi : Q) (fib : fiber) (f : Q) : res Q :=
   let beta := b2 + 2 * pi * b3 * (f - f_ref fib) in
   Ok (- beta * 2 * pi * sq (f_ref fib) / c_light * len_m fib).
 
-(* the same value with pi cancelled by hand (what Proofs/Fiber.v proves the above equal to) *)
-Definition cd_scalar_closed (d L : Q) : Q := d * L.
-
 (* Fiber.pmd squared; FiberParams latency *)
 Definition fiber_pmd2 (fib : fiber) : Q := sq (f_pmd_coef fib) * len_m fib.
 Definition fiber_latency (fib : fiber) : Q := len_m fib / (c_light / f_n1 fib).
